@@ -179,12 +179,14 @@ package parse
 //@   ensures[minus-is-binary-iff-after-operand;C01] operandEnd(old(l.lastEmit.typ)) == (result != lexNumber && l.lastEmit.typ == itemSub)
 
 //@ func lexSoyDoc
-//@   props C05
+//@   props C05 C15
 //@   requires lexerOK(l)
 //@   modifies l.pos, l.start, l.width, l.lastEmit
 //@   ensures result != nil ==> lexerOK(l) && l.pos > old(l.pos) && result == lexText
+//@   at call parse.maybeEmitText#0 assert[a-soydoc-ends-at-a-star-directly-followed-by-a-slash;C15] l.pos >= 2 && l.input[l.pos-2] == 42 && l.input[l.pos-1] == 47
 //@   loop 0
 //@     invariant lexerOK(l) && l.pos >= old(l.pos)
+//@     invariant[star-means-the-character-just-read-is-a-star;C15] star ==> l.pos >= 1 && l.input[l.pos-1] == 42
 //@     decreases len(l.input) - l.pos, ite(startOfLine, 1, 0)
 
 //@ func lexSoyDocParam
